@@ -11,6 +11,9 @@ EXTENDS EduceMulti, EduceSpell
 
 vars == <<cfg, phase>>
 
+\* the explicit rank used by the `rank` tweak: negative, so that sign handling is exercised in every spelling
+NegRank == {-3}
+
 AllEight == <<"Debug", "Clone", "PartialEq", "Eq", "PartialOrd", "Ord", "Hash", "Default">>
 TraitSetsQuick == { AllEight }
 TraitSetsThorough == { AllEight, <<"Debug", "PartialEq", "PartialOrd">>, <<"Hash", "Clone", "Copy", "Default">> }
